@@ -931,3 +931,101 @@ def rule_retry_loop(model: Model, fshort: str, rule="RETRY-LOOP", func=None):
                           f"exactly zero whenever the guess already solves the (local) system - e.g. amen_solve(eye, ones, x0=ones, max_full=0, local_solver=2). "
                           f"No test of `{a}` against zero dominates the loop"))
     return obs
+
+
+# --------------------------------------------------------------------------- QR-RANK (the bond a QR factor is re-shaped with)
+
+def _is_transposed(e, names):
+    """(root name, transposed?) of Q, Q.T, Q.t(), Q.mT, tn.t(Q), tn.transpose(Q, 0, 1); None when `e` is not a view of one of `names`"""
+    if isinstance(e, ast.Name) and e.id in names:
+        return e.id, False
+    if isinstance(e, ast.Attribute) and e.attr in ("T", "mT", "H") and isinstance(e.value, ast.Name) and e.value.id in names:
+        return e.value.id, True
+    if isinstance(e, ast.Call):
+        tail = norm(e.func).rsplit(".", 1)[-1]
+        if tail in ("t", "transpose", "conj", "contiguous", "clone") and isinstance(e.func, ast.Attribute):
+            inner = e.func.value if not (isinstance(e.func.value, ast.Name) and e.func.value.id in ("tn", "torch")) else (e.args[0] if e.args else None)
+            r = _is_transposed(inner, names) if inner is not None else None
+            if r is None:
+                return None
+            return (r[0], not r[1]) if tail in ("t", "transpose") else r
+    return None
+
+
+def rule_qr_rank(model: Model, fshort: str, rule="QR-RANK"):
+    """`Q, R = QR(X)` gives Q with min(rows, columns) of X columns.  Where Q (or its transpose) is re-shaped into a core, the dimension that stands
+    for the new bond must be -1 or a value taken from the factors' / X's shape after (or for) this factorisation; an entry of a rank list that has
+    not been re-assigned from such a value is the rank *before* the factorisation, which is larger whenever X has fewer rows than columns."""
+    if not model.has_func(fshort):
+        return []
+    f = model.func(fshort)
+    obs = []
+    seen = {}
+    for block in _blocks(f.node):
+        for i, s in enumerate(block):
+            if not (isinstance(s, ast.Assign) and len(s.targets) == 1 and isinstance(s.targets[0], ast.Tuple) and len(s.targets[0].elts) == 2
+                    and isinstance(s.value, ast.Call) and norm(s.value.func).rsplit(".", 1)[-1] == "QR" and s.value.args):
+                continue
+            qa, rb = s.targets[0].elts
+            if not isinstance(qa, ast.Name) or qa.id == "_":
+                continue
+            facs = {qa.id} | ({rb.id} if isinstance(rb, ast.Name) and rb.id != "_" else set())
+            xroot = _root_name(s.value.args[0])
+            shaped = facs | ({xroot} if xroot else set())
+
+            def derived(e, upto, depth=0):
+                """True: taken from the shapes of the factors / of X; False: a list entry that is not; None: not recognised"""
+                if isinstance(e, ast.Constant):
+                    return True if e.value == -1 else None
+                for x in ast.walk(e):
+                    if isinstance(x, ast.Attribute) and x.attr == "shape" and _root_name(x.value) in shaped:
+                        return True
+                    if isinstance(x, ast.Call) and isinstance(x.func, ast.Attribute) and x.func.attr in ("size", "numel") and _root_name(x.func.value) in shaped:
+                        return True
+                if depth > 3:
+                    return None
+                key = norm(e).replace(" ", "")
+                if isinstance(e, (ast.Name, ast.Subscript)):
+                    for j in range(upto - 1, -1, -1):
+                        st = block[j]
+                        if isinstance(st, ast.Assign) and len(st.targets) == 1 and norm(st.targets[0]).replace(" ", "") == key:
+                            return derived(st.value, j, depth + 1)
+                        if isinstance(st, (ast.For, ast.While, ast.If, ast.With, ast.Try)) and any(
+                                isinstance(t, (ast.Name, ast.Subscript)) and isinstance(getattr(t, "ctx", None), ast.Store) and norm(t).replace(" ", "") == key for t in ast.walk(st)):
+                            return None
+                    if isinstance(e, ast.Subscript) and isinstance(e.value, ast.Name):
+                        return False        # an entry of a list that this block has not re-assigned: the value from before the factorisation
+                return None
+            for j in range(i + 1, len(block)):
+                st = block[j]
+                for c in ast.walk(st):
+                    if not (isinstance(c, ast.Call) and norm(c.func).rsplit(".", 1)[-1] == "reshape"):
+                        continue
+                    if isinstance(c.func, ast.Attribute) and not (isinstance(c.func.value, ast.Name) and c.func.value.id in ("tn", "torch", "np")):
+                        src, dims = c.func.value, (c.args[0].elts if len(c.args) == 1 and isinstance(c.args[0], (ast.List, ast.Tuple)) else list(c.args))
+                    elif len(c.args) >= 2 and isinstance(c.args[1], (ast.List, ast.Tuple)):
+                        src, dims = c.args[0], c.args[1].elts
+                    else:
+                        continue
+                    v = _is_transposed(src, {qa.id})
+                    if v is None or not dims or any(isinstance(d_, ast.Starred) for d_ in dims):
+                        continue
+                    dim = dims[0] if v[1] else dims[-1]
+                    verdict = derived(dim, j)
+                    text = norm(c)[:90]
+                    n = seen.get(text, 0)
+                    seen[text] = n + 1
+                    k = f"{fshort}:{rule}:{text}:{n}"
+                    if verdict is True:
+                        obs.append(Ob(rule, k, OK, model.where(f, st), text, f"the new bond `{norm(dim)}` is taken from the factorisation"))
+                    elif verdict is False:
+                        obs.append(Ob(rule, k, VIOLATED, model.where(f, st), text,
+                                      f"{fshort}: `{text}` re-shapes the QR factor `{qa.id}` of `{norm(s.value.args[0])[:40]}` with the bond `{norm(dim)}`, an entry of a rank "
+                                      f"list that has not been re-assigned from the factor's shape: the factor has min(rows, columns) columns, which is smaller than "
+                                      f"the old rank whenever the unfolding has fewer rows than columns (an initial guess of high rank, a small trailing mode after "
+                                      f"the kick) - the reshape then fails"))
+                    else:
+                        obs.append(Ob(rule, k, INFO, model.where(f, st), text, f"the bond `{norm(dim)}` of the re-shaped factor is not traced to the factorisation (not decided)"))
+                if any(isinstance(t, ast.Name) and isinstance(t.ctx, ast.Store) and t.id == qa.id for t in ast.walk(st)):
+                    break
+    return obs
